@@ -1548,4 +1548,212 @@ theorem play_sim (P : Prog) (c d : Cfg) (h : Sim P c d) : Sim P (play c).1 d := 
   · exact Or.inr (Or.inl (h.frame f (by rw [hi]; exact h.intSome) (hio h.intOk) hp))
   · exact Or.inr (Or.inr (h.frame f (by rw [hi]; exact h.2.choose_spec.choose_spec.2.2.2.int)))
 
+/-! ### wake-up requests at quiet moments act alike on both runs -/
+
+theorem PcRelAt_congr2 (p : Pc) (c c' d d' : Cfg) (hc : c'.st = c.st) (hd : d'.st = d.st) (hp : d'.pc = d.pc)
+    (h : PcRelAt p c d) : PcRelAt p c' d' := by
+  cases p with
+  | notStarted => exact hp.trans h
+  | done => exact hp.trans h
+  | crashed e => exact hp.trans h
+  | awaitPaused pf => exact h
+  | inUser b => simp only [PcRelAt] at h ⊢; rw [hc, hp]; exact h
+  | awaitWaiting wf => simp only [PcRelAt] at h ⊢; rw [hc, hd, hp]; exact h
+
+/-- both runs changed in a way that keeps what `InStep` needs besides `Core` -/
+theorem InStep.transfer {c d c' d' : Cfg} (h : InStep c d) (hcore : Core c' d') (hc : c'.st = c.st) (hd : d'.st = d.st)
+    (hpc : c'.pc = c.pc) (hpd : d'.pc = d.pc) (hint : c'.interrupt = c.interrupt) (hact : c'.actions = c.actions)
+    (hstep : c'.stepping = c.stepping) (hpa : c'.paused = c.paused) : InStep c' d' := by
+  refine ⟨hcore, h.intOk.of_eq hint hact, ?_, ?_, ?_⟩
+  · rw [hpc]; exact PcRelAt_congr2 _ _ _ _ _ hc hd hpd h.pc
+  · intro hr; rw [hpc] at hr; rw [hstep, hpa]; exact h.run hr
+  · intro hr; rw [hpc] at hr; rw [hstep, hint]; exact h.idle hr
+
+/-- `Waiting._deliver` of an outcome on both runs -/
+theorem deliver_inStep (c d : Cfg) (o : WF) (h : InStep c d) (ho : ∀ k, o ≠ .interrupted k) :
+    InStep (deliver c o) (deliver d o) := by
+  rcases h.core.st with ⟨heq, hnw⟩ | ⟨fn, wf, aw, wf', w, h1, h2, h3, h4, h5⟩
+  · have e1 : deliver c o = c := by
+      unfold deliver; split
+      · rename_i a b c' d' hst; exact absurd hst (hnw _ _ _ _)
+      · rfl
+    have e2 : deliver d o = d := by
+      unfold deliver; split
+      · rename_i a b c' d' hst; rw [← heq] at hst; exact absurd hst (hnw _ _ _ _)
+      · rfl
+    rw [e1, e2]; exact h
+  · by_cases hw : w = .pending
+    · subst hw
+      have e1 : deliver c o = { c with wfs := setAt c.wfs wf o } := by simp only [deliver, h1, h3]
+      have e2 : deliver d o = { d with wfs := setAt d.wfs wf' o } := by simp only [deliver, h2, h4]
+      rw [e1, e2]
+      refine h.transfer ⟨h.core.sh, ?_, h.core.ckill, h.core.dint, h.core.dpaused⟩ rfl rfl rfl rfl rfl rfl rfl rfl
+      exact Or.inr ⟨fn, wf, aw, wf', o, h1, h2, setAt_self_get _ _ _ _ h3, setAt_self_get _ _ _ _ h4, ho⟩
+    · have e1 : deliver c o = c := by
+        simp only [deliver, h1, h3]
+        cases w <;> first | rfl | exact absurd rfl hw | exact absurd rfl (h5 _)
+      have e2 : deliver d o = d := by
+        simp only [deliver, h2, h4]
+        cases w <;> first | rfl | exact absurd rfl hw | exact absurd rfl (h5 _)
+      rw [e1, e2]; exact h
+
+theorem resume_inStep (c d : Cfg) (v : Option Val) (h : InStep c d) : InStep (resume c v).1 (resume d v).1 := by
+  rcases h.core.st with ⟨heq, hnw⟩ | ⟨fn, wf, aw, wf', w, h1, h2, h3, h4, h5⟩
+  · have e1 : (resume c v).1 = c := by
+      unfold resume; split
+      · rename_i a b c' d' hst; exact absurd hst (hnw _ _ _ _)
+      · rfl
+    have e2 : (resume d v).1 = d := by
+      unfold resume; split
+      · rename_i a b c' d' hst; rw [← heq] at hst; exact absurd hst (hnw _ _ _ _)
+      · rfl
+    rw [e1, e2]; exact h
+  · have e1 : (resume c v).1 = deliver c (.result v) := by simp only [resume, h1]
+    have e2 : (resume d v).1 = deliver d (.result v) := by simp only [resume, h2]
+    rw [e1, e2]; exact deliver_inStep c d _ h (by intro k hk; cases hk)
+
+theorem complete_inStep (c d : Cfg) (f : Nat) (o : EFut) (h : InStep c d) : InStep (complete c f o) (complete d f o) := by
+  obtain ⟨g1, g2, g3, g4, g5, g6, g7, g8, g9, g10, g11, g12, g13, g14, g15⟩ := sh_fields h.core.sh
+  have e1 : d.efs[f]? = c.efs[f]? := by rw [g6]
+  have e2 : d.efCb.contains f = c.efCb.contains f := by rw [g7]
+  unfold complete
+  rw [e1]
+  split
+  · dsimp only
+    rw [e2]
+    split
+    · refine h.transfer ⟨?_, h.core.st, h.core.ckill, h.core.dint, h.core.dpaused⟩ rfl rfl rfl rfl rfl rfl rfl rfl
+      rw [sh_eq_iff]; simp [*]
+    · refine h.transfer ⟨?_, h.core.st, h.core.ckill, h.core.dint, h.core.dpaused⟩ rfl rfl rfl rfl rfl rfl rfl rfl
+      rw [sh_eq_iff]; simp [*]
+  · exact h
+
+/-- `_awaitable_done` of a callback whose state object was left: it still writes the context -/
+def onOld (c : Cfg) (f : Nat) : Cfg :=
+  match c.efKeys.find? (·.1 = f), c.efs[f]? with
+  | some (_, key), some (EFut.result v) => { c with ctx := (key, v) :: c.ctx.filter (·.1 ≠ key) }
+  | _, _ => c
+
+theorem aD_notWaiting (c : Cfg) (f : Nat) (h : NotWaiting c.st) : awaitableDone c f = onOld c f := by
+  unfold awaitableDone onOld
+  split
+  · rename_i a b c' d' hst; exact absurd hst (h _ _ _ _)
+  · rfl
+
+theorem aD_waiting_none (c : Cfg) (f fn wf : Nat) (wk aw) (hst : c.st = .waiting fn wf wk aw)
+    (hf : aw.find? (·.1 = f) = none) : awaitableDone c f = onOld c f := by
+  unfold awaitableDone onOld
+  simp only [hst, hf]
+  rfl
+
+theorem aD_some_result (c : Cfg) (f fn wf : Nat) (wk aw) (x key : Nat) (v : Val) (hst : c.st = .waiting fn wf wk aw)
+    (hf : aw.find? (·.1 = f) = some (x, key)) (he : c.efs[f]? = some (.result v)) :
+    awaitableDone c f =
+      if (aw.filter (·.1 ≠ f)).isEmpty then
+        deliver { c with st := .waiting fn wf wk (aw.filter (·.1 ≠ f)), ctx := (key, v) :: c.ctx.filter (·.1 ≠ key) } (.result none)
+      else { c with st := .waiting fn wf wk (aw.filter (·.1 ≠ f)), ctx := (key, v) :: c.ctx.filter (·.1 ≠ key) } := by
+  unfold awaitableDone
+  simp only [hst, hf, he]
+
+theorem aD_some_exc (c : Cfg) (f fn wf : Nat) (wk aw) (x key : Nat) (e : Exc) (hst : c.st = .waiting fn wf wk aw)
+    (hf : aw.find? (·.1 = f) = some (x, key)) (he : c.efs[f]? = some (.exc e)) :
+    awaitableDone c f = deliver { c with st := .waiting fn wf wk (aw.filter (·.1 ≠ f)) } (.failed e) := by
+  unfold awaitableDone
+  simp only [hst, hf, he]
+
+theorem aD_some_other (c : Cfg) (f fn wf : Nat) (wk aw) (x key : Nat) (hst : c.st = .waiting fn wf wk aw)
+    (hf : aw.find? (·.1 = f) = some (x, key)) (h1 : ∀ v, c.efs[f]? ≠ some (.result v)) (h2 : ∀ e, c.efs[f]? ≠ some (.exc e)) :
+    awaitableDone c f = { c with st := .waiting fn wf wk (aw.filter (·.1 ≠ f)) } := by
+  unfold awaitableDone
+  simp only [hst, hf]
+
+theorem InStep.ctx {c d : Cfg} (h : InStep c d) (X : List (Nat × Val)) : InStep { c with ctx := X } { d with ctx := X } := by
+  refine h.transfer ⟨?_, h.core.st, h.core.ckill, h.core.dint, h.core.dpaused⟩ rfl rfl rfl rfl rfl rfl rfl rfl
+  obtain ⟨g1, g2, g3, g4, g5, g6, g7, g8, g9, g10, g11, g12, g13, g14, g15⟩ := sh_fields h.core.sh
+  rw [sh_eq_iff]; simp [*]
+
+theorem onOld_inStep (c d : Cfg) (f : Nat) (h : InStep c d) : InStep (onOld c f) (onOld d f) := by
+  obtain ⟨g1, g2, g3, g4, g5, g6, g7, g8, g9, g10, g11, g12, g13, g14, g15⟩ := sh_fields h.core.sh
+  have e1 : d.efKeys.find? (·.1 = f) = c.efKeys.find? (·.1 = f) := by rw [g8]
+  have e2 : d.efs[f]? = c.efs[f]? := by rw [g6]
+  have e3 : d.ctx = c.ctx := g9.symm
+  unfold onOld
+  rw [e1, e2]
+  split
+  · rw [e3]; exact h.ctx _
+  · exact h
+
+theorem InStep.aw {c d : Cfg} (h : InStep c d) (fn wf wf' : Nat) (aw aw' : List (Nat × Nat))
+    (hst : c.st = .waiting fn wf none aw) (hst' : d.st = .waiting fn wf' none aw) :
+    InStep { c with st := .waiting fn wf none aw' } { d with st := .waiting fn wf' none aw' } := by
+  obtain ⟨wf2, w, _, hst2, hcw, hdw, hni⟩ := h.core.st.waiting_inv hst
+  rw [hst'] at hst2; cases hst2
+  refine ⟨⟨h.core.sh, Or.inr ⟨fn, wf, aw', wf', w, rfl, rfl, hcw, hdw, hni⟩, h.core.ckill, h.core.dint, h.core.dpaused⟩,
+    h.intOk.of_eq rfl rfl, ?_, h.run, h.idle⟩
+  have hp := h.pc
+  show PcRelAt c.pc _ _
+  cases hpc : c.pc with
+  | notStarted => rw [hpc] at hp; exact hp
+  | done => rw [hpc] at hp; exact hp
+  | crashed e => rw [hpc] at hp; exact hp
+  | awaitPaused pf => rw [hpc] at hp; exact hp
+  | inUser b =>
+    rw [hpc] at hp
+    obtain ⟨_, fn', a', k', hr⟩ := hp
+    rw [hst] at hr; cases hr
+  | awaitWaiting wf0 =>
+    rw [hpc] at hp
+    obtain ⟨fn0, wk0, aw0, wf0', h1, h2, h3⟩ := hp
+    rw [hst] at h1; cases h1
+    rw [hst'] at h2; cases h2
+    exact ⟨fn, none, aw', wf', rfl, rfl, h3⟩
+
+theorem awaitableDone_inStep (c d : Cfg) (f : Nat) (h : InStep c d) : InStep (awaitableDone c f) (awaitableDone d f) := by
+  obtain ⟨g1, g2, g3, g4, g5, g6, g7, g8, g9, g10, g11, g12, g13, g14, g15⟩ := sh_fields h.core.sh
+  rcases h.core.st with ⟨heq, hnw⟩ | ⟨fn, wf, aw, wf', w, h1, h2, h3, h4, h5⟩
+  · rw [aD_notWaiting c f hnw, aD_notWaiting d f (heq ▸ hnw)]
+    exact onOld_inStep c d f h
+  · cases hf : aw.find? (·.1 = f) with
+    | none =>
+      rw [aD_waiting_none c f fn wf none aw h1 hf, aD_waiting_none d f fn wf' none aw h2 hf]
+      exact onOld_inStep c d f h
+    | some xk =>
+      obtain ⟨x, key⟩ := xk
+      have e2 : d.efs[f]? = c.efs[f]? := by rw [g6]
+      have haw := h.aw fn wf wf' aw (aw.filter (·.1 ≠ f)) h1 h2
+      cases he : c.efs[f]? with
+      | none =>
+        rw [aD_some_other c f fn wf none aw x key h1 hf (by rw [he]; intro v hv; cases hv) (by rw [he]; intro v hv; cases hv),
+          aD_some_other d f fn wf' none aw x key h2 hf (by rw [e2, he]; intro v hv; cases hv) (by rw [e2, he]; intro v hv; cases hv)]
+        exact haw
+      | some o =>
+        cases o with
+        | pending =>
+          rw [aD_some_other c f fn wf none aw x key h1 hf (by rw [he]; intro v hv; cases hv) (by rw [he]; intro v hv; cases hv),
+            aD_some_other d f fn wf' none aw x key h2 hf (by rw [e2, he]; intro v hv; cases hv) (by rw [e2, he]; intro v hv; cases hv)]
+          exact haw
+        | result v =>
+          rw [aD_some_result c f fn wf none aw x key v h1 hf he, aD_some_result d f fn wf' none aw x key v h2 hf (by rw [e2, he])]
+          have hc2 := haw.ctx ((key, v) :: c.ctx.filter (·.1 ≠ key))
+          rw [← g9]
+          split
+          · exact deliver_inStep _ _ _ hc2 (by intro k hk; cases hk)
+          · exact hc2
+        | exc e =>
+          rw [aD_some_exc c f fn wf none aw x key e h1 hf he, aD_some_exc d f fn wf' none aw x key e h2 hf (by rw [e2, he])]
+          exact deliver_inStep _ _ _ haw (by intro k hk; cases hk)
+
+theorem tickCb_adone_inStep (c d : Cfg) (f : Nat) (h : InStep c d) :
+    InStep (tickCb c (.adone f)) (tickCb d (.adone f)) := by
+  have g10 : c.ready = d.ready := (sh_fields h.core.sh).2.2.2.2.2.2.2.2.2.1
+  unfold tickCb
+  rw [← g10]
+  split
+  · dsimp only
+    apply awaitableDone_inStep
+    refine h.transfer ⟨?_, h.core.st, h.core.ckill, h.core.dint, h.core.dpaused⟩ rfl rfl rfl rfl rfl rfl rfl rfl
+    obtain ⟨g1, g2, g3, g4, g5, g6, g7, g8, g9, g10, g11, g12, g13, g14, g15⟩ := sh_fields h.core.sh
+    rw [sh_eq_iff]; simp [*]
+  · exact h
+
 end PMF
